@@ -138,6 +138,23 @@ pub fn cast(cx: &Ctx, v: &Tr, to: &Ty) -> R<Tr> {
     Ok(Tr::new(s, to.clone()))
 }
 
+/// value of a constant integer expression (literals, `<<`, `>>`)
+pub fn const_int(e: &Expr) -> Option<u128> {
+    match strip(e) {
+        Expr::Lit(ExprLit { lit: Lit::Int(i), .. }) => i.base10_parse::<u128>().ok(),
+        Expr::Binary(b) => {
+            let l = const_int(&b.left)?;
+            let r = const_int(&b.right)?;
+            match b.op {
+                BinOp::Shl(_) if r < 100 => l.checked_shl(r as u32),
+                BinOp::Shr(_) if r < 100 => Some(l >> r),
+                _ => None,
+            }
+        }
+        _ => None,
+    }
+}
+
 fn is_unsuffixed_int_lit(e: &Expr) -> bool {
     match strip(e) {
         Expr::Lit(ExprLit { lit: Lit::Int(i), .. }) => i.suffix().is_empty(),
@@ -230,6 +247,15 @@ pub fn tr_expr(cx: &mut Ctx, e: &Expr, expected: Option<&Ty>) -> R<Tr> {
         Expr::Binary(b) => tr_binary(cx, b, expected),
         Expr::Cast(c) => {
             let to = conv_type(&c.ty, &cx.tybind);
+            if cx.rng_mode && to == Ty::F64 && matches!(strip(&c.expr), Expr::Binary(_)) {
+                // a constant such as `(1u64 << 53) as f64` is evaluated by rustc; exactly representable values only
+                if let Some(v) = const_int(&c.expr) {
+                    if (v as f64) as u128 == v && v < (1u128 << 100) {
+                        return Ok(Tr::new(format!("({}.0 : α)", v), Ty::F64));
+                    }
+                    return Err("constant integer that is not exactly representable as f64".into());
+                }
+            }
             let hint = if is_unsuffixed_int_lit(&c.expr) { Some(Ty::Int(IntK::Unk)) } else { None };
             let v = tr_expr(cx, &c.expr, hint.as_ref())?;
             cast(cx, &v, &to)
@@ -428,7 +454,11 @@ fn tr_binary(cx: &mut Ctx, b: &ExprBinary, expected: Option<&Ty>) -> R<Tr> {
     let is_logic = matches!(b.op, And(_) | Or(_));
     if is_logic {
         let l = tr_expr(cx, &b.left, Some(&Ty::Bool))?;
+        let n_pre = cx.prelude.len();
         let r = tr_expr(cx, &b.right, Some(&Ty::Bool))?;
+        if cx.rng_mode && cx.prelude.len() != n_pre {
+            return Err("side effect in the right operand of a short-circuit operator".into());
+        }
         let op = if matches!(b.op, And(_)) { "∧" } else { "∨" };
         return Ok(Tr::prop(format!("({} {} {})", l.as_prop(), op, r.as_prop())));
     }
@@ -502,6 +532,30 @@ fn tr_binary(cx: &mut Ctx, b: &ExprBinary, expected: Option<&Ty>) -> R<Tr> {
             _ => return Err("float binop".into()),
         };
         return Ok(Tr::new(s, Ty::F64));
+    }
+    if both_int && cx.rng_mode && matches!(b.op, BitAnd(_) | Shr(_) | Shl(_)) {
+        // `w & (2^k - 1)` is `w % 2^k`, `w >> k` is `w / 2^k` (conventions of Model/Rng.lean); unsigned words only
+        let uns = matches!(&l.ty, Ty::Int(k) if unsigned(k));
+        let c = const_int(&b.right).ok_or("bit operation with a non-literal right operand")?;
+        if !uns {
+            return Err("bit operation on a signed integer".into());
+        }
+        let s = match b.op {
+            BitAnd(_) => {
+                if c.checked_add(1).map(|m| m.is_power_of_two()).unwrap_or(false) {
+                    format!("({} % {})", l.s, c + 1)
+                } else {
+                    return Err("bit-and with a mask that is not 2^k - 1".into());
+                }
+            }
+            Shr(_) if c < 64 => format!("({} / {})", l.s, 1u128 << c),
+            Shl(_) => match const_int(&Expr::Binary(b.clone())) {
+                Some(v) if v < (1u128 << 64) => format!("({} : Int)", v),
+                _ => return Err("left shift of a non-constant".into()),
+            },
+            _ => return Err("integer bit operation".into()),
+        };
+        return Ok(Tr::new(s, l.ty.clone()));
     }
     if both_int {
         let uns = matches!(&ty, Ty::Int(k) if unsigned(k));
@@ -751,6 +805,11 @@ pub fn call_fn(cx: &mut Ctx, key: &str, recv: Option<&Tr>, args: &Punctuated<Exp
         }
         let mut outs = vec![];
         for (i, (a, (_, pty))) in args.iter().zip(fi.params.iter()).enumerate() {
+            if let Ty::Fn(ins, out) = pty {
+                let (f, _) = tr_closure(cx, a, ins, Some(out))?;
+                ss.push(f);
+                continue;
+            }
             let v = tr_expr(cx, a, Some(pty))?;
             if fi.param_ref[i] == 2 {
                 let place = match strip(a) {
@@ -789,6 +848,50 @@ pub fn call_fn(cx: &mut Ctx, key: &str, recv: Option<&Tr>, args: &Punctuated<Exp
         format!("{} (α := α)", fi.lean_name)
     };
     Ok(Tr::new(format!("({} {})", head, ss.join(" ")).replace(" )", ")"), fi.ret.clone()))
+}
+
+/// `Distribution::<T>::sample(&d, rng)` for a crate distribution `d`: `T` from the expected type
+pub fn call_sample(cx: &mut Ctx, d: &Tr, expected: Option<&Ty>, args: &Punctuated<Expr, Token![,]>) -> R<Tr> {
+    let sn = match &d.ty {
+        Ty::Struct(n) => n.clone(),
+        t => return Err(format!("Distribution::sample on {:?}", t)),
+    };
+    let suffix = match expected {
+        Some(Ty::F64) => "f64",
+        Some(Ty::Int(IntK::U64)) => "u64",
+        Some(Ty::Int(IntK::I64)) => "i64",
+        Some(Ty::Int(IntK::Usize)) => "usize",
+        Some(Ty::Bool) => "bool",
+        _ => return Err("Distribution::sample with an unknown result type".into()),
+    };
+    let key = format!("{}::sample_{}", sn, suffix);
+    if !cx.idx.fns.contains_key(&key) {
+        return Err(format!("no sampler {}", key));
+    }
+    call_fn(cx, &key, Some(d), args)
+}
+
+/// call of a nested `fn` item lifted by `Stmt::Item(Item::Fn)`
+fn call_local_fn(cx: &mut Ctx, fi: &FnInfo, args: &Punctuated<Expr, Token![,]>) -> R<Tr> {
+    if fi.params.len() != args.len() {
+        return Err(format!("arity mismatch calling {}", fi.name));
+    }
+    let mut ss = vec![];
+    let mut outs = vec![];
+    for (i, (a, (_, pty))) in args.iter().zip(fi.params.iter()).enumerate() {
+        let v = tr_expr(cx, a, Some(pty))?;
+        if fi.param_ref[i] == 2 {
+            outs.push(v.s.clone());
+        }
+        ss.push(v.val());
+    }
+    let call = format!("({} (α := α) {})", fi.lean_name, ss.join(" "));
+    if outs.is_empty() {
+        return Ok(Tr::new(call, fi.ret.clone()));
+    }
+    let tmp = cx.fresh("r");
+    cx.prelude.push(format!("let ({}, {}) := {}\n", tmp, outs.join(", "), call));
+    Ok(Tr::new(tmp, fi.ret.clone()))
 }
 
 fn tr_call(cx: &mut Ctx, c: &ExprCall, expected: Option<&Ty>) -> R<Tr> {
@@ -888,14 +991,58 @@ fn tr_call(cx: &mut Ctx, c: &ExprCall, expected: Option<&Ty>) -> R<Tr> {
         let v = tr_expr(cx, &c.args[0], Some(&Ty::Int(IntK::U64)))?;
         return Ok(Tr::new(format!("(if {} = 0 then none else some {})", v.s, v.s), Ty::Opt(Box::new(Ty::Int(IntK::U64)))));
     }
+    if cx.rng_mode {
+        // a nested `fn` of the function being translated
+        if segs.len() == 1 && cx.lookup(last).is_none() {
+            if let Some(fi) = cx.local_fns.get(last).cloned() {
+                return call_local_fn(cx, &fi, &c.args);
+            }
+        }
+        let full = cx.expand_first(&segs).unwrap_or(segs.clone());
+        let is_rand = full.first().map(|x| x == "rand").unwrap_or(false);
+        // `rand::distributions::Uniform::new_inclusive(lo, hi)` (f64): `none` = panic
+        if is_rand && full.len() >= 2 && full[full.len() - 2] == "Uniform" && last == "new_inclusive" && c.args.len() == 2 {
+            let lo = tr_expr(cx, &c.args[0], Some(&Ty::F64))?;
+            let hi = tr_expr(cx, &c.args[1], Some(&Ty::F64))?;
+            if lo.ty != Ty::F64 || hi.ty != Ty::F64 {
+                return Err("rand Uniform over a non-f64 type".into());
+            }
+            cx.uses_rngfloat = true;
+            let tmp = cx.fresh("q");
+            let v = if cx.mut_self && cx.value_depth == 0 { cx.with_outs("panicV") } else { "panicV".to_string() };
+            let r = if cx.loop_ctx.is_empty() || cx.value_depth > 0 { v } else { format!("(LoopR.ret {})", v) };
+            cx.prelude.push(format!("match (Statrs.Model.uniformNewInclusive (α := α) {} {}) with\n | none => {}\n | some {} =>\n", lo.s, hi.s, r, tmp));
+            return Ok(Tr::new(tmp, Ty::RandUniform));
+        }
+        // `rand::distributions::Distribution::sample(&d, rng)` (UFCS): the impl is chosen by the result type
+        if is_rand && full.len() >= 2 && full[full.len() - 2] == "Distribution" && last == "sample" && c.args.len() == 2 {
+            let d = tr_expr(cx, &c.args[0], None)?;
+            let rest: Punctuated<Expr, Token![,]> = c.args.iter().skip(1).cloned().collect();
+            return call_sample(cx, &d, expected, &rest);
+        }
+    }
     match cx.resolve(&segs) {
         Resolved::Fn(k) => call_fn(cx, &k, None, &c.args),
         Resolved::Local(ln) => {
             let (_, ty) = cx.lookup(&segs[0]).unwrap();
             if let Ty::Fn(ins, out) = ty {
                 let mut ss = vec![];
+                let mut rng_out: Option<String> = None;
                 for (a, t) in c.args.iter().zip(ins.iter()) {
-                    ss.push(tr_expr(cx, a, Some(t))?.val());
+                    let v = tr_expr(cx, a, Some(t))?;
+                    if *t == Ty::Rng {
+                        if v.ty != Ty::Rng || rng_out.is_some() {
+                            return Err("closure call: odd random-source argument".into());
+                        }
+                        rng_out = Some(v.s.clone());
+                    }
+                    ss.push(v.val());
+                }
+                if let Some(r) = rng_out {
+                    // `z(rng, u)` with `Z: FnMut(&mut R, f64) -> f64`: value and advanced source
+                    let tmp = cx.fresh("r");
+                    cx.prelude.push(format!("let ({}, {}) := ({} {})\n", tmp, r, ln, ss.join(" ")));
+                    return Ok(Tr::new(tmp, (*out).clone()));
                 }
                 return Ok(Tr::new(format!("({} {})", ln, ss.join(" ")), (*out).clone()));
             }
@@ -1011,6 +1158,14 @@ pub fn tr_closure(cx: &mut Ctx, e: &Expr, ptys: &[Ty], exp_ret: Option<&Ty>) -> 
         Expr::Path(p) => {
             // function path used as closure, e.g. `.map(f64::ln)`; unsupported except simple crate fns
             let segs = path_segs(&p.path);
+            if segs.len() == 1 && cx.lookup(&segs[0]).is_none() {
+                if let Some(fi) = cx.local_fns.get(&segs[0]).cloned() {
+                    if fi.params.len() != ptys.len() || fi.params.iter().zip(ptys.iter()).any(|((_, a), b)| a != b) {
+                        return Err(format!("nested fn {} passed at a different type", segs[0]));
+                    }
+                    return Ok((format!("({} (α := α))", fi.lean_name), fi.ret.clone()));
+                }
+            }
             if let Resolved::Fn(k) = cx.resolve(&segs) {
                 let fi = cx.idx.fns.get(&k).unwrap().clone();
                 cx.deps.insert(k.clone());
